@@ -55,7 +55,7 @@ def C(s, name):  # constructs class
 
 OBLIGATIONS = [
     ("O3", "TRIM's implicit VARCHAR cast must exist before JSON-extract casts are rewritten",
-     lambda s, src: "Trim" in s.match and C(s, "Trim") and C(s, "Cast"),
+     lambda s, src: "Trim" in s.match and C(s, "Cast"),
      lambda s, src: "Cast" in s.match and C(s, "JSONExtractScalar") and "JSONExtract" in src and "Explode" not in src and "Upper" not in src,
      "TRIM(v:a) must become TRIM(CAST(.. AS VARCHAR)) so that the quote-stripping stage sees a Cast over the JSON extraction"),
     ("O4", "index -> JSON extraction runs before REGEXP_SUBSTR is rewritten",
